@@ -165,6 +165,7 @@ func runC03(r *core.Run) {
 	validateTraces(r, "Trace_Exif", "Trace_Exif.cfg", "exif2.ifdReader", ops, obs, ts.lines, ts.owner)
 	bindingSelfTest(r, "Trace_Exif", "Trace_Exif.cfg", &ts, "val", 1, 2) // a value fetched 2 bytes off its place
 	runExifAlign(r)
+	runExifThumb(r, items, rng)
 	r.Extra["entry_points"] = []string{"imagemeta.Decode", "imagemeta.DecodeTiff", "exif2.Parse", "tiff.ScanTiffHeader+ifdReader.DecodeTiff", "imagemeta.DecodeJPEG", "ifdReader.DecodeIfd"}
 	r.Assumptions = append(r.Assumptions,
 		"forward layouts only (the property's domain); values are in the ranges the reported types can hold; strings are printable without trailing blanks",
@@ -321,4 +322,60 @@ func runExifAlign(r *core.Run) {
 		}
 	}
 	r.Extra["alignment_sweep_ops"] = len(ops)
+}
+
+// runExifThumb: a thumbnail directory (IFD1: other dimensions, orientation, make; thumbnail data) chained behind a
+// sample of the generated blocks. The reported record is the primary image's: it must equal the specified record,
+// exactly as without IFD1 ("unrelated tags do not perturb the result").
+func runExifThumb(r *core.Run, items []exifItem, rng *rand.Rand) {
+	var ops []core.Op
+	var info []exifOpInfo
+	step := 7
+	if r.Tier == "thorough" {
+		step = 2
+	}
+	for i := rng.Intn(step); i < len(items); i += step {
+		it := &items[i]
+		if it.C.Variant == "ifd" || it.C.Bulk > 0 {
+			continue
+		}
+		for _, bo := range []string{"LE", "BE"} {
+			t := gen.AppendIFD1(it.Tiff[bo], bo, it.C.Ifd0At)
+			if t == nil {
+				continue
+			}
+			for _, ec := range entriesFor(it.C.Variant) {
+				data := append(append([]byte{}, t...), make([]byte, 40)...)
+				if ec[1] == "jpeg" {
+					data = gen.WrapJPEG(t, rng, i%3)
+				}
+				ops = append(ops, core.Op{ID: len(ops), Kind: "exif", Data: data, Cut: -1, Args: exifArgs(ec[0], bo, it.C.Ifd0At, len(t))})
+				info = append(info, exifOpInfo{i, bo, ec[0], ec[1]})
+			}
+		}
+	}
+	obs, err := core.RunOps(ops, core.WorkerOpts{})
+	if err != nil {
+		r.Machinery("worker: %v", err)
+		return
+	}
+	for i := range obs {
+		o, op, inf := &obs[i], &ops[i], info[i]
+		it := &items[inf.item]
+		if o.Bad() {
+			r.Violate("exif:thumb:"+o.BadKind()+"@"+o.Site, fmt.Sprintf("%s with a thumbnail directory behind the block: %s %s%s", inf.entry, o.BadKind(), o.Panic, o.Crash), replayOf(op, o, describeExifCase(it)))
+			continue
+		}
+		r.Cases++
+		if o.Err != "" {
+			r.Violate("exif:thumb:error:"+inf.entry, "well-formed file with a thumbnail directory (IFD1), error "+o.Err, replayOf(op, o, describeExifCase(it)))
+			continue
+		}
+		var got exifObsR
+		json.Unmarshal(o.R, &got)
+		for _, f := range diffFlat(got.F, it.Exp, it.Skip) {
+			r.Violate("exif:thumb:field:"+f+":"+entryGroup(inf.entry), fmt.Sprintf("%s (%s, %s) with a thumbnail directory chained behind the block: field %s = %v, the primary image's value is %v", inf.entry, inf.bo, it.C.Variant, f, got.F[f], it.Exp[f]), replayOf(op, o, describeExifCase(it)))
+		}
+	}
+	r.Extra["thumbnail_directory_runs"] = len(ops)
 }
